@@ -110,7 +110,7 @@ def run_config(pid, cfg, tier, seed, timeout_ms, max_paths):
     res['failures'] = list(seen.values())
     res['stats'] = env.stats.as_dict()
     res['inconclusive'] = env.inconclusive[:5]
-    res['samples'] = env.samples
+    res['samples'] = env.samples + env.trivial_samples[:max(0, 3 - len(env.samples))]
     res['canaries'] = env.canary_seen
     res['functions'] = trace.functions()
     res['notes'] = env.notes
@@ -218,8 +218,8 @@ def main(argv=None):
     for r in results:
         total.add(r.get('stats', {}))
         functions.update(r.get('functions', []))
-        for s in r.get('samples', []):
-            if len(samples) < 8 and not any(x['obligation'] == s['obligation'] for x in samples):
+        for s in sorted(r.get('samples', []), key=lambda x: x.get('decided_by') != 'z3'):
+            if len(samples) < 10 and not any(x['obligation'] == s['obligation'] for x in samples):
                 samples.append(dict(s, config=r['label']))
         if r['error']:
             errors.append(f"{r['label']}: {r['error']}")
@@ -296,6 +296,9 @@ def main(argv=None):
         'configurations': len(results),
         'paths_explored': st['paths'], 'paths_completed': st['completed_paths'], 'paths_aborted': st['aborted_paths'],
         'forks': st['forks'],
+        'obligations_decided_by_solver': st['obligations'] - st['trivial_claims'],
+        'obligations_decided_by_term_identity_or_execution': st['trivial_claims'],
+        'solver_queries_answered_from_cache': st['cache_hits'],
         'obligations': st['obligations'], 'discharged': st['discharged'], 'refuted': st['refuted'],
         'inconclusive': st['inconclusive'],
         'solver_queries': st['queries'], 'solver_seconds': round(st['solver_s'], 3),
